@@ -91,6 +91,9 @@ func (fd *Client) SetInterpreter(i interpreter.Interpreter) {
 		panic("invalid interpreter type")
 	}
 
+	fd.mu.Lock()
+	defer fd.mu.Unlock()
+
 	fd.nativeInterpreter = native
 
 	for _, table := range fd.tables {
@@ -100,6 +103,9 @@ func (fd *Client) SetInterpreter(i interpreter.Interpreter) {
 
 // GetNativeInterpreter returns native interpreter
 func (fd *Client) GetNativeInterpreter() *interpreter.Native {
+	fd.mu.Lock()
+	defer fd.mu.Unlock()
+
 	return fd.nativeInterpreter
 }
 
@@ -108,6 +114,9 @@ func (fd *Client) CreateTable(input *dynamodb.CreateTableInput) (*dynamodb.Creat
 	if err := input.Validate(); err != nil {
 		return nil, err
 	}
+
+	fd.mu.Lock()
+	defer fd.mu.Unlock()
 
 	tableName := aws.StringValue(input.TableName)
 	if _, ok := fd.tables[tableName]; ok {
@@ -151,6 +160,9 @@ func (fd *Client) DeleteTable(input *dynamodb.DeleteTableInput) (*dynamodb.Delet
 		return nil, err
 	}
 
+	fd.mu.Lock()
+	defer fd.mu.Unlock()
+
 	tableName := aws.StringValue(input.TableName)
 
 	table, err := fd.getTable(tableName)
@@ -177,6 +189,9 @@ func (fd *Client) UpdateTable(input *dynamodb.UpdateTableInput) (*dynamodb.Updat
 	if err := input.Validate(); err != nil {
 		return nil, err
 	}
+
+	fd.mu.Lock()
+	defer fd.mu.Unlock()
 
 	tableName := aws.StringValue(input.TableName)
 
@@ -209,6 +224,9 @@ func (fd *Client) UpdateTableWithContext(ctx aws.Context, input *dynamodb.Update
 
 // DescribeTable returns information about the table
 func (fd *Client) DescribeTable(input *dynamodb.DescribeTableInput) (*dynamodb.DescribeTableOutput, error) {
+	fd.mu.Lock()
+	defer fd.mu.Unlock()
+
 	tableName := aws.StringValue(input.TableName)
 
 	table, err := fd.getTable(tableName)
@@ -497,7 +515,25 @@ func (fd *Client) ScanWithContext(ctx aws.Context, input *dynamodb.ScanInput, op
 
 // SetItemCollectionMetrics set the value of the property itemCollectionMetrics
 func (fd *Client) setItemCollectionMetrics(itemCollectionMetrics map[string][]*dynamodb.ItemCollectionMetrics) {
+	fd.mu.Lock()
+	defer fd.mu.Unlock()
+
 	fd.itemCollectionMetrics = itemCollectionMetrics
+}
+
+func (fd *Client) getItemCollectionMetrics() map[string][]*dynamodb.ItemCollectionMetrics {
+	fd.mu.Lock()
+	defer fd.mu.Unlock()
+
+	return fd.itemCollectionMetrics
+}
+
+// failureCondition returns the emulated failure under the client lock
+func (fd *Client) failureCondition() error {
+	fd.mu.Lock()
+	defer fd.mu.Unlock()
+
+	return fd.forceFailureErr
 }
 
 // SetItemCollectionMetrics set the value of the property itemCollectionMetrics
@@ -540,7 +576,7 @@ func (fd *Client) BatchWriteItem(input *dynamodb.BatchWriteItemInput) (*dynamodb
 
 	return &dynamodb.BatchWriteItemOutput{
 		UnprocessedItems:      unprocessed,
-		ItemCollectionMetrics: fd.itemCollectionMetrics,
+		ItemCollectionMetrics: fd.getItemCollectionMetrics(),
 	}, nil
 }
 
@@ -585,6 +621,9 @@ func validateBatchWriteItemInput(input *dynamodb.BatchWriteItemInput) error {
 // checkBatchWriteTargets makes sure that every request addresses an existing
 // table with a well formed key, so that a rejected batch writes nothing
 func checkBatchWriteTargets(fd *Client, input *dynamodb.BatchWriteItemInput) error {
+	fd.mu.Lock()
+	defer fd.mu.Unlock()
+
 	for tableName, reqs := range input.RequestItems {
 		table, err := fd.getTable(tableName)
 		if err != nil {
@@ -654,8 +693,8 @@ func handleBatchWriteRequestError(table string, req *dynamodb.WriteRequest, unpr
 
 // TransactWriteItems mock response for dynamodb
 func (fd *Client) TransactWriteItems(input *dynamodb.TransactWriteItemsInput) (*dynamodb.TransactWriteItemsOutput, error) {
-	if fd.forceFailureErr != nil {
-		return nil, fd.forceFailureErr
+	if err := fd.failureCondition(); err != nil {
+		return nil, err
 	}
 
 	//TODO: Implement transact write
